@@ -294,6 +294,7 @@ def check_weight_fn(ctx, model):
 
 def run(ctx):
     model = ctx.model()
+    check_epoch_ranges(ctx, model)
     check_weight_pairing(ctx, model, OPEN, "add")
     check_weight_pairing(ctx, model, EXPAND, "add")
     check_weight_pairing(ctx, model, CLOSE, "sub")
@@ -301,3 +302,27 @@ def run(ctx):
     check_sibling(ctx, model)
     check_claim_guards(ctx, model)
     check_weight_fn(ctx, model)
+
+
+def check_epoch_ranges(ctx, model):
+    """W7: claim, the rewards query and the share query replay the weight history over the same epochs: an inclusive
+    range that ends at the CURRENT epoch (RangeInclusive::new(_, get_current_epoch())); a half-open range stops one epoch
+    short, so the entry written in the current epoch is ignored and the reported shares can exceed 100%."""
+    n = 0
+    for p in ("incentive::claim::claim", "incentive::queries::get_rewards::get_rewards", "incentive::queries::get_rewards_share::get_rewards_share"):
+        v = ctx.view(p, "C13-W7")
+        if v is None:
+            continue
+        cur = lambda os_: bool(os_) and all(o.kind == "call" and o.a.endswith("get_current_epoch") for o in os_)
+        incl = [(b, t) for b, t in v.calls_to(r"^std::ops::RangeInclusive::new$") if cur(v.origins_of_operand(t["args"][1], at=v.at_term(b)))]
+        half = []
+        for b, i, s_ in v.iter_stmts():
+            rv = s_["rv"]
+            if rv["r"] == "agg" and rv.get("adt", "").endswith("ops::Range") and "end" in rv.get("fields", []):
+                if cur(v.origins_of_operand(rv["ops"][rv["fields"].index("end")], at=(b, i))):
+                    half.append(b)
+        n += len(incl)
+        ctx.ob("C13-W7", "%s|replay-includes-the-current-epoch" % p, len(incl) >= 1 and not half,
+               "inclusive ranges ending at the current epoch: %d; half-open ranges ending at the current epoch: %d" % (len(incl), len(half)),
+               v.where(half[0]) if half else v.where())
+    ctx.floor("C13-W7", "inclusive epoch replay ranges", n, 3)
